@@ -451,6 +451,7 @@ def stream(ctx):
     base = list(cases)
     cases += D.own_domain(base, q)
     cases += D.aliased_outputs(base, q)
+    cases += D.regenerate(base, q)
     cases += D.generator_reuse(q)      # order matters inside this group: consecutive calls on one generator object
     return cases
 
